@@ -148,21 +148,22 @@ func TestVerifC06IndexWriter(t *testing.T) {
 	}
 	defer os.RemoveAll(scratch)
 
+	// the default cluster configuration is loaded once; every scenario replaces its Volumes
+	ldr := config.NewLoader(strings.NewReader("Clusters: {zzzzz: {}}"), logger)
+	ldr.Path = "-"
+	cfg, err := ldr.Load()
+	if err != nil {
+		panic(err)
+	}
+	cluster, err := cfg.GetCluster("")
+	if err != nil {
+		panic(err)
+	}
 	for _, s := range scns {
 		if s.Mode != "write" {
 			continue
 		}
 		rng := rand.New(rand.NewSource(seed*1000003 + int64(s.ID)))
-		ldr := config.NewLoader(strings.NewReader("Clusters: {zzzzz: {}}"), logger)
-		ldr.Path = "-"
-		cfg, err := ldr.Load()
-		if err != nil {
-			panic(err)
-		}
-		cluster, err := cfg.GetCluster("")
-		if err != nil {
-			panic(err)
-		}
 		cluster.SystemRootToken = token
 		cluster.Collections.BlobSigning = false
 		cluster.Volumes = map[string]arvados.Volume{}
